@@ -448,12 +448,20 @@ func rd(spec InSpec, v []byte, found bool) string {
 func issue(call *wasm.Call, p model.Pair, e Event, set bool) {
 	key := Keys[e.K%6]
 	switch p.Policy {
+	// byte arguments reach the host functions as a view of guest memory that the guest reuses after the call:
+	// the buffer is overwritten as soon as the call returns (see rs.poison)
 	case "set":
-		call.DoSet(e.O, key, []byte(fmt.Sprintf("v%d", e.V)))
+		v := []byte(fmt.Sprintf("v%d", e.V))
+		call.DoSet(e.O, key, v)
+		poison(v)
 	case "set_if_not_exists":
-		call.DoSetIfNotExists(e.O, key, []byte(fmt.Sprintf("v%d", e.V)))
+		v := []byte(fmt.Sprintf("v%d", e.V))
+		call.DoSetIfNotExists(e.O, key, v)
+		poison(v)
 	case "append":
-		call.DoAppend(e.O, key, []byte(fmt.Sprintf("%d;", e.V)))
+		v := []byte(fmt.Sprintf("%d;", e.V))
+		call.DoAppend(e.O, key, v)
+		poison(v)
 	default:
 		var s string
 		var f float64
@@ -534,4 +542,11 @@ func abs(x int) int {
 		return -x
 	}
 	return x
+}
+
+
+func poison(b []byte) {
+	for i := range b {
+		b[i] = '?'
+	}
 }
